@@ -19,6 +19,17 @@ pub struct SpCase {
 
 pub struct C04;
 
+thread_local! {
+    /// 301 isolated nodes: a search from the last one touches node index 300 only
+    static FILLER: crate::model::G = {
+        let mut g = crate::model::G::new(crate::model::SpecBits::kind(true, false, false).to_specs());
+        for i in 0..=300 {
+            g.add_node(crate::model::mk_node(&format!("f{:03}", i), None));
+        }
+        g
+    };
+}
+
 pub fn to_idx(ng: &NormGraph, p: &[String]) -> Option<Vec<usize>> {
     p.iter().map(|x| ng.index_of(x)).collect()
 }
@@ -324,6 +335,47 @@ impl Prop for C04 {
                         }
                     }
                 }
+            }
+            // Recurrence protocol: a call from source a, then exactly P - 1 calls that touch one far-away
+            // node index only (an isolated node of another graph), then a call from source c on the same
+            // thread, for P = 2^8 - 1, 2^8, 2^16 - 1, 2^16: per-thread scratch state that is validated by
+            // a wrapping generation counter would take what the first call left behind for current.
+            let sel = case.sources;
+            let period: Option<usize> = if sel % 512 == 7 {
+                Some([65_535usize, 65_536][(sel as usize >> 9) % 2])
+            } else if sel % 32 == 3 {
+                Some([255usize, 256][(sel as usize >> 9) % 2])
+            } else {
+                None
+            };
+            if let (Some(period), true, true) = (period, n >= 2 && n <= 40, out.failures.is_empty()) {
+                let a = (sel as usize >> 10) % n;
+                let mut c = (sel as usize >> 16) % n;
+                if c == a {
+                    c = (a + 1) % n;
+                }
+                let (fo, wp) = [(false, true), (false, false), (true, true), (true, false)][(sel as usize >> 22) % 4];
+                FILLER.with(|filler| {
+                    out.api_calls += period as u64 + 1;
+                    let _ = guard(|| dijkstra::single_source(&graph, weighted, ng.names[a].clone(), None, None, fo, wp));
+                    let z = "f300".to_string();
+                    for _ in 0..period - 1 {
+                        let _ = dijkstra::single_source(filler, weighted, z.clone(), None, None, fo, wp);
+                    }
+                    let r = guard(|| dijkstra::single_source(&graph, weighted, ng.names[c].clone(), None, None, fo, wp));
+                    let ctx = format!("single_source[{},fo={},wp={}]/after_{}_calls", mname, fo, wp, if period > 256 { "2^16" } else { "2^8" });
+                    match r {
+                        Err(p) => out.fail(format!("{}/panic/{}", ctx, panic_class(&p)), p),
+                        Ok(Err(e)) => out.fail(format!("{}/error/{}", ctx, kind_of(&e)), format!("source {}: {}", c, e.message)),
+                        Ok(Ok(ans)) => {
+                            let dist_row: Vec<f64> = if exact_arith { d[c].clone() } else { bellman_ford(&w, c) };
+                            let brute = if small && positive && exact_arith { Some(brute_shortest_paths(&w, c).1) } else { None };
+                            let sigma = if !small && positive && exact_arith { Some(sigma_from(&w, &d, c)) } else { None };
+                            check_answer(&ng, &w, &dist_row, brute.as_ref(), sigma.as_deref(), c, &ans, fo, wp, positive && exact_arith, &ctx, &mut out);
+                        }
+                    }
+                });
+                out.class(if period > 256 { "recurrence_after_2^16_calls_on_one_thread" } else { "recurrence_after_2^8_calls_on_one_thread" });
             }
         }
         if ng.has_parallel() {
